@@ -456,9 +456,16 @@ func (e *EntitlementMapAccess) Image(gauge common.MemoryGauge, inputs Access, po
 		output := orderedmap.New[EntitlementOrderedSet](inputs.Entitlements.Len())
 
 		var err error
+		emptyAlternative := false
 		inputs.Entitlements.Foreach(func(entitlement *EntitlementType, _ struct{}) {
 			entitlementImage := e.entitlementImage(entitlement)
 			output.SetAll(entitlementImage)
+
+			// A disjunction only guarantees one (unknown) of its alternatives:
+			// if that alternative maps to nothing, the holder obtains nothing.
+			if inputs.SetKind == Disjunction && entitlementImage.Len() == 0 {
+				emptyAlternative = true
+			}
 
 			// The image of a single element is always a conjunctive set;
 			// consider a mapping M defined as X -> Y, X -> Z, A -> B, A -> C. M(X) = Y & Z and M(A) = B & C.
@@ -481,7 +488,7 @@ func (e *EntitlementMapAccess) Image(gauge common.MemoryGauge, inputs Access, po
 		}
 
 		// the image of a set through a map is the conjunction of all the output sets
-		if output.Len() == 0 {
+		if output.Len() == 0 || emptyAlternative {
 			return UnauthorizedAccess, nil
 		}
 
